@@ -7,6 +7,8 @@ import (
 	"bytes"
 	"context"
 	"fmt"
+	cbornode "github.com/ipfs/go-ipld-cbor"
+	mh "github.com/multiformats/go-multihash"
 	"io"
 	"strings"
 	"testing"
@@ -241,7 +243,7 @@ func c20run(r *kernel.Run, seed uint64) {
 	r.Logf("history: account ops=%d, joined group=%v, exported members=%d (entries %d)", nops, mm != nil, len(members), total)
 
 	// mutation of the archive in transit
-	fault := []string{"none", "none", "flip-entry", "flip-heads", "flip-key", "drop-entry", "drop-key", "dup-key", "dup-entry", "reorder", "truncate", "used-store", "drop-both-keys"}[s.r.Choose(13)]
+	fault := []string{"none", "none", "flip-entry", "flip-heads", "flip-key", "drop-entry", "drop-key", "dup-key", "dup-entry", "reorder", "truncate", "used-store", "drop-both-keys", "reencoded-entry"}[s.r.Choose(14)]
 	mutated := archive
 	pickMember := func(prefix string, exact bool) int {
 		var idx []int
@@ -267,6 +269,28 @@ func c20run(r *kernel.Run, seed uint64) {
 			mutated, mustFail = c20write(ms), true
 		} else {
 			fault = "none"
+		}
+	case "reencoded-entry":
+		// the bytes of an entry replaced by ANOTHER encoding of the same object (CBOR 'undefined' 0xf7 where the
+		// canonical form has 'null' 0xf6): they decode to the same entry but do not hash to the identifier
+		fault = "none"
+		if i := pickMember(exportOrbitDBEntriesPrefix, false); i >= 0 {
+			raw := members[i].data
+			if orig, err := cbornode.Decode(raw, mh.SHA2_256, -1); err == nil {
+				for pos := range raw {
+					if raw[pos] != 0xf6 {
+						continue
+					}
+					d := append([]byte(nil), raw...)
+					d[pos] = 0xf7
+					if alt, err := cbornode.Decode(d, mh.SHA2_256, -1); err == nil && alt.Cid().Equals(orig.Cid()) {
+						ms := append([]c20member(nil), members...)
+						ms[i].data = d
+						mutated, mustFail, fault = c20write(ms), true, "reencoded-entry"
+						break
+					}
+				}
+			}
 		}
 	case "flip-heads":
 		if i := pickMember(exportOrbitDBHeadsPrefix, false); i >= 0 {
